@@ -1315,3 +1315,89 @@ MUTANTS += [
              (SS, '\tcase protocol.TypePeerJoined:\n\t\tvar peerJoined protocol.PeerJoined\n', '\tcase protocol.TypePeerJoined:\n\t\tif env.From != "server" {\n\t\t\treturn\n\t\t}\n\t\tvar peerJoined protocol.PeerJoined\n'),
              (SS, '\tcase protocol.TypePeerLeft:\n\t\tvar peerLeft protocol.PeerLeft\n\t\tif err := env.DecodePayload(&peerLeft); err != nil {\n\t\t\ts.logger.Error("failed to decode peer_left"', '\tcase protocol.TypePeerLeft:\n\t\tif env.From != protocol.ServerPeerID {\n\t\t\treturn\n\t\t}\n\t\tvar peerLeft protocol.PeerLeft\n\t\tif err := env.DecodePayload(&peerLeft); err != nil {\n\t\t\ts.logger.Error("failed to decode peer_left"')]),
 ]
+
+# --- round 9 (DESIGN 8.18) ---
+_HANDOUT_OLD = '''	if s.scheduleDone {
+		if s.resendPending {
+			idx := s.resendChunk
+			s.resendPending = false
+			s.inFlight++
+			return idx, chunkSizeForIndex(s.item.Size, s.chunkSize, idx), true
+		}
+		return 0, 0, false
+	}
+	if s.resendPending {
+		idx := s.resendChunk
+		s.resendPending = false
+		s.inFlight++
+		return idx, chunkSizeForIndex(s.item.Size, s.chunkSize, idx), true
+	}
+'''
+_HANDOUT_NEW = '''	if s.scheduleDone {
+		if s.resendPending {
+			s.resendPending = false
+			return s.handOutLocked(s.resendChunk)
+		}
+		return 0, 0, false
+	}
+	if s.resendPending {
+		s.resendPending = false
+		return s.handOutLocked(s.resendChunk)
+	}
+'''
+_HANDOUT_HELPER = '''
+// handOutLocked counts chunk idx as in flight and returns it with its length.
+func (s *sendFileState) handOutLocked(idx uint32) (uint32, uint32, bool) {
+	s.inFlight++
+	return idx, chunkSizeForIndex(s.item.Size, s.chunkSize, idx), true
+}
+
+// noteFrameSent counts a chunk frame that was written to a data stream.
+'''
+MUTANTS += [
+ dict(id='R9-benign-hand-out-helper', props=['C17', 'C19', 'C06', 'C03', 'C04', 'C01'], expect='SILENT',
+      edits=[(MS, _HANDOUT_OLD, _HANDOUT_NEW),
+             (MS, '\t\ts.inFlight++\n\t\tif s.nextChunk >= s.totalChunks {\n\t\t\ts.scheduleDone = true\n\t\t}\n\t\treturn idx, chunkSizeForIndex(s.item.Size, s.chunkSize, idx), true\n', '\t\tif s.nextChunk >= s.totalChunks {\n\t\t\ts.scheduleDone = true\n\t\t}\n\t\treturn s.handOutLocked(idx)\n'),
+             (MS, '\n// noteFrameSent counts a chunk frame that was written to a data stream.\n', _HANDOUT_HELPER)]),
+]
+PRM = 'internal/transfer/params.go'
+MUTANTS += [
+ dict(id='R9-benign-wire-name-helper', props=['C13', 'C01'], expect='SILENT',
+      edits=[(MAN, '\t\t\t\tRelPath: filepath.ToSlash(relPath),\n', '\t\t\t\tRelPath: wireName(relPath),\n'),
+             (MAN, '\t\t\t\tRelPath: filepath.ToSlash(dirRelPath),\n', '\t\t\t\tRelPath: wireName(dirRelPath),\n'),
+             (MAN, '\nfunc computeID(', '\n// wireName is the spelling of a path in the manifest.\nfunc wireName(p string) string { return filepath.ToSlash(p) }\n\nfunc computeID(')]),
+ dict(id='R9-names-lowercased', props=['C13', 'C01'], expect='R-NAME-VERBATIM/name-verbatim/',
+      edits=[(MAN, '\t\t\t\tRelPath: filepath.ToSlash(relPath),\n', '\t\t\t\tRelPath: filepath.ToSlash(string(bytes.ToLower([]byte(relPath)))),\n'),
+             (MAN, '\t"encoding/binary"\n', '\t"bytes"\n\t"encoding/binary"\n')]),
+ dict(id='R9-benign-clamp-first', props=['C03'], expect='SILENT',
+      edits=[(PRM, '\tif out.ParallelFiles < 1 {\n\t\tout.ParallelFiles = 1\n\t}\n\tif out.ParallelFiles > MaxParallelFiles {\n\t\tout.ParallelFiles = MaxParallelFiles\n\t}\n', '\tif out.ParallelFiles > MaxParallelFiles {\n\t\tout.ParallelFiles = MaxParallelFiles\n\t}\n\tif out.ParallelFiles < 1 {\n\t\tout.ParallelFiles = 1\n\t}\n')]),
+ dict(id='R9-clamp-before-the-configured-default', props=['C03'], expect='R-PARAMS-CLAMPED/params-clamped/',
+      edits=[(PRM, '\tif out.ParallelFiles == 0 {\n\t\tout.ParallelFiles = opts.ParallelFiles\n\t}\n\tif out.ParallelFiles < 1 {\n\t\tout.ParallelFiles = 1\n\t}\n\tif out.ParallelFiles > MaxParallelFiles {\n\t\tout.ParallelFiles = MaxParallelFiles\n\t}\n', '\tif out.ParallelFiles > MaxParallelFiles {\n\t\tout.ParallelFiles = MaxParallelFiles\n\t}\n\tif out.ParallelFiles == 0 {\n\t\tout.ParallelFiles = opts.ParallelFiles\n\t}\n\tif out.ParallelFiles < 1 {\n\t\tout.ParallelFiles = 1\n\t}\n')]),
+ dict(id='R9-resume-wait-always-bounded', props=['C04'], expect='R-RESUME-WAIT-UNBOUNDED/resume-wait/',
+      edits=[(MS, '\t\t\tif resumeTimeout > 0 {\n\t\t\t\tresumeCtx, resumeCancel = context.WithTimeout(transferCtx, resumeTimeout)\n\t\t\t}\n', '\t\t\tresumeCtx, resumeCancel = context.WithTimeout(transferCtx, resumeTimeout+resumeGracePeriod)\n')]),
+ dict(id='R9-benign-resume-timeout-clamped-to-zero-differently', props=['C04'], expect='SILENT',
+      edits=[(MS, '\tif resumeTimeout < 0 {\n\t\tresumeTimeout = 0\n\t}\n', '\tif resumeTimeout <= 0 {\n\t\tresumeTimeout = 0\n\t}\n')]),
+ dict(id='R9-benign-deferred-wait-before-cancel', props=['C09', 'C03', 'C12'], expect='SILENT',
+      edits=[(SR, '\tacceptCtx, cancel := context.WithTimeout(ctx, 10*time.Second)\n\tdefer cancel()\n', '\tvar auths sync.WaitGroup\n\tdefer auths.Wait()\n\tacceptCtx, cancel := context.WithTimeout(ctx, 10*time.Second)\n\tdefer cancel()\n'),
+             (SR, '\t\t\tgo func() {\n\t\t\t\tif err := authenticateTransport(acceptCtx, conn, r.joinCode, authRoleReceive); err != nil {', '\t\t\tauths.Add(1)\n\t\t\tgo func() {\n\t\t\t\tdefer auths.Done()\n\t\t\t\tif err := authenticateTransport(acceptCtx, conn, r.joinCode, authRoleReceive); err != nil {')]),
+ dict(id='R9-collection-error-when-complete', props=['C09'], expect='R-COLLECTION-COMPLETE/collection-complete/',
+      edits=[(SR, '\t\t\treturn conns, lastErr\n\t\t}\n\t}\n\treturn conns, nil\n}', '\t\t\treturn conns, lastErr\n\t\t}\n\t}\n\tif lastErr != nil {\n\t\treturn conns, lastErr\n\t}\n\treturn conns, nil\n}')]),
+ dict(id='R9-benign-write-deadline-reset', props=['C10', 'C11'], expect='SILENT',
+      edits=[(SRV, '\t\t\terr := conn.WriteControl(websocket.PongMessage, []byte(appData), time.Now().Add(10*time.Second))\n\t\t\twriteMu.Unlock()\n', '\t\t\t_ = conn.SetWriteDeadline(time.Now().Add(10 * time.Second))\n\t\t\terr := conn.WriteControl(websocket.PongMessage, []byte(appData), time.Now().Add(10*time.Second))\n\t\t\t_ = conn.SetWriteDeadline(time.Time{})\n\t\t\twriteMu.Unlock()\n')]),
+ dict(id='R9-write-deadline-left-behind-on-error', props=['C10'], expect='R-WS-WRITE-DEADLINE/ws-write-deadline/',
+      edits=[(SRV, '\t\t\terr := conn.WriteControl(websocket.PongMessage, []byte(appData), time.Now().Add(10*time.Second))\n\t\t\twriteMu.Unlock()\n\t\t\treturn err\n', '\t\t\t_ = conn.SetWriteDeadline(time.Now().Add(10 * time.Second))\n\t\t\terr := conn.WriteControl(websocket.PongMessage, []byte(appData), time.Now().Add(10*time.Second))\n\t\t\tif err != nil {\n\t\t\t\twriteMu.Unlock()\n\t\t\t\treturn err\n\t\t\t}\n\t\t\t_ = conn.SetWriteDeadline(time.Time{})\n\t\t\twriteMu.Unlock()\n\t\t\treturn err\n')]),
+ dict(id='R9-slot-released-only-on-refusal-paths', props=['C16', 'C14'], expect='R-CONN-SLOT-RELEASED/conn-slot/',
+      edits=[(SRV, '\t\tdefer wsConnLimiter.Release()\n\t}\n', '\t}\n\tif limits.maxWSConnections > 0 && role == "receiver" {\n\t\tdefer wsConnLimiter.Release()\n\t}\n')]),
+ dict(id='R9-expiry-compared-without-zero-test', props=['C16', 'C14'], expect='R-EXPIRY-ZERO-NEVER/expiry-zero/',
+      edits=[(SESS, '\tif !session.ExpiresAt.IsZero() && time.Now().After(session.ExpiresAt) {\n', '\tif time.Now().After(session.ExpiresAt) {\n')]),
+ dict(id='R9-benign-expiry-nested-zero-test', props=['C16', 'C14'], expect='SILENT',
+      edits=[(SESS, '\tif !session.ExpiresAt.IsZero() && time.Now().After(session.ExpiresAt) {\n\t\tdelete(s.sessions, sessionID)\n\t\tdelete(s.byCode, code)\n\t\treturn Session{}, false\n\t}\n', '\tif !session.ExpiresAt.IsZero() {\n\t\tif time.Now().After(session.ExpiresAt) {\n\t\t\tdelete(s.sessions, sessionID)\n\t\t\tdelete(s.byCode, code)\n\t\t\treturn Session{}, false\n\t\t}\n\t}\n')]),
+ dict(id='R9-result-channel-unbuffered-write-helper', props=['C03', 'C02'], expect='R-ABANDONED-BUF/abandoned-buf/helper/transfer.writeAtWithTimeout/result-channel',
+      edits=[(MP, '\tresultCh := make(chan writeResult, 1)\n\tgo func() {\n\t\tn, err := f.WriteAt(buf, offset)\n', '\tresultCh := make(chan writeResult)\n\tgo func() {\n\t\tn, err := f.WriteAt(buf, offset)\n')]),
+ dict(id='R9-benign-error-wrapped-with-w', props=['C01', 'C02', 'C03'], expect='SILENT',
+      edits=[(MS, '\t\t\t\t\treleaseChunkBuf(bufPool, buf, err)\n\t\t\t\t\tsetErr(fmt.Errorf("failed to read file %s: %w", state.item.RelPath, err))\n', '\t\t\t\t\terr = fmt.Errorf("failed to read file %s: %w", state.item.RelPath, err)\n\t\t\t\t\treleaseChunkBuf(bufPool, buf, err)\n\t\t\t\t\tsetErr(err)\n')]),
+ dict(id='R9-benign-plan-installed-in-both-branches', props=['C17', 'C04', 'C06'], expect='SILENT',
+      edits=[(MS, '\t\t\t\tstate.mu.Lock()\n\t\t\t\tstate.plan = plan\n\t\t\t\tstate.mu.Unlock()\n\t\t\t\treturn nil\n', '\t\t\t\tif plan != nil {\n\t\t\t\t\tstate.mu.Lock()\n\t\t\t\t\tstate.plan = plan\n\t\t\t\t\tstate.mu.Unlock()\n\t\t\t\t} else {\n\t\t\t\t\tstate.mu.Lock()\n\t\t\t\t\tstate.plan = plan\n\t\t\t\t\tstate.mu.Unlock()\n\t\t\t\t}\n\t\t\t\treturn nil\n')]),
+ dict(id='R9-control-end-breaks-out-of-select-only', props=['C15', 'C03'], expect='R-CONTROL-ENDED-RETURNS/control-ended/',
+      edits=[(MS, '\t\t\tif completedCount >= totalFiles {\n\t\t\t\treturn m, nil\n\t\t\t}\n\t\t\treturn m, err\n\t\tcase err := <-dataErrCh:', '\t\t\tif completedCount >= totalFiles {\n\t\t\t\treturn m, nil\n\t\t\t}\n\t\t\tif err != nil {\n\t\t\t\treturn m, err\n\t\t\t}\n\t\tcase err := <-dataErrCh:')]),
+]
